@@ -147,7 +147,7 @@ func TestCheck(t *testing.T) {
 	for _, sc := range scs {
 		sc := sc
 		list = append(list, report.Scenario{
-			Name: sc.name(), Bound: sc.bound, Prune: true,
+			Name: sc.name(), Bound: sc.bound, Prune: true, Wrap: report.Bubble(t),
 			Body: func(r *explore.Run) { body(r, sc, rep) },
 		})
 	}
